@@ -1,6 +1,6 @@
 (** C29 — proofs about the name-system model [model/M_C29.v]. *)
 From Coq Require Import List ZArith Bool NArith Lia.
-From V Require Import lib.Verdict model.M_C29.
+From V Require Import lib.Verdict model.M_C29 gen.Gen_C29.
 Import ListNotations.
 Open Scope Z_scope.
 
@@ -956,6 +956,11 @@ Proof.
     inversion Hx; subst. cbn [minnz_list]. destruct Hside as [Hl|Hnn]; [cbn in Hl; lia|].
     inversion Hall; subst. inversion Hnn; subst. lia.
 Qed.
+
+(** the model's [min_nz] is the function go2coq translates from utilities.go
+    minNonZeroTTL on every run *)
+Lemma min_nz_translated : forall a b, min_nz a b = Gen_C29.minNonZeroTTL a b.
+Proof. intros. reflexivity. Qed.
 
 (** the fuel of the model's recursion is never exhausted when the depth is limited *)
 Theorem fuel_enough : forall f cf st p d,
